@@ -39,6 +39,15 @@ Definition mm_nonmutators : list string :=
   ["Swap"; "GetMemManager"; "ResetKey"; "GetBegin"; "GetEnd"; "Find"; "GetKeyBounds"; "MakeIterator";
    "MakeMutableIterator"; "MakeMutableKeyIterator"].
 
+(* DataTable: changeVersion (every change of the rows / indexed items) and removeVersion (removal or replacement of rows) *)
+Definition dt_both : list string := ["Clear"; "Assign"; "Remove"; "Extract"].
+Definition dt_change : list string :=
+  ["Add"; "AddRow"; "TryAdd"; "TryAddRow"; "Insert"; "InsertRow"; "TryInsert"; "TryInsertRow"; "Update"; "TryUpdate"].
+Definition dt_nonmutators : list string :=
+  ["Swap"; "GetMemManager"; "Reserve"; "operator[]"; "NewRow"; "AddUniqueHashIndex"; "AddMultiHashIndex";
+   "RemoveUniqueHashIndexes"; "RemoveMultiHashIndexes"; "Select"; "SelectEmpty"; "GetBegin"; "GetEnd";
+   "FindByUniqueHash"; "FindByMultiHash"; "MakeMutableReference"].
+
 Definition required (cls name : string) : option (list string) :=
   let own_tag :=
     if String.eqb cls "HashSet" || String.eqb cls "TreeSet" then Some "version"
@@ -54,15 +63,23 @@ Definition required (cls name : string) : option (list string) :=
       | [] => if mem_s name mm_nonmutators then Some [] else None
       | l => Some l
       end
+    else if String.eqb cls "DataTable" then
+      if mem_s name dt_both then Some ["changeVersion"; "removeVersion"]
+      else if mem_s name dt_change then Some ["changeVersion"]
+      else if mem_s name dt_nonmutators then Some [] else None
     else None
   end.
+(* replacing a whole row by number also advances removeVersion *)
+Definition required_m (cls meth : string) : option (list string) :=
+  if String.eqb cls "DataTable" && (String.eqb meth "Update(size_t, Row &&)" || String.eqb meth "TryUpdate(size_t, Row &&)")
+  then Some ["changeVersion"; "removeVersion"] else required cls (name_of meth).
 
 (* one row of the generated table agrees with the model:
    const member functions bump nothing; a classified mutator certainly reaches a bump of each required cell;
    a classified non-mutator reaches no bump in any instantiation; every non-const public member is classified *)
 Definition row_ok4 (cls meth : string) (all any : list string) : bool :=
   if ends_const meth then match any with [] => true | _ => false end
-  else match required cls (name_of meth) with
+  else match required_m cls meth with
        | None => false
        | Some [] => match any with [] => true | _ => false end
        | Some (r :: rs) => subset_s (r :: rs) all
@@ -71,7 +88,7 @@ Definition row_ok (row : string * string * list string * list string) : bool :=
   row_ok4 (fst (fst (fst row))) (snd (fst (fst row))) (snd (fst row)) (snd row).
 
 Definition is_mutator (cls meth : string) : bool :=
-  negb (ends_const meth) && match required cls (name_of meth) with Some (_ :: _) => true | _ => false end.
+  negb (ends_const meth) && match required_m cls meth with Some (_ :: _) => true | _ => false end.
 Definition mutator_rows : list (string * string * list string * list string) :=
   filter (fun row => is_mutator (fst (fst (fst row))) (snd (fst (fst row)))) version_table.
 
@@ -83,7 +100,7 @@ Proof. vm_compute. reflexivity. Qed.
 Definition mutator_bumps (row : string * string * list string * list string) : bool :=
   let cls := fst (fst (fst row)) in let meth := snd (fst (fst row)) in
   if is_mutator cls meth then
-    match required cls (name_of meth) with Some req => subset_s req (snd (fst row)) | None => false end
+    match required_m cls meth with Some req => subset_s req (snd (fst row)) | None => false end
   else true.
 Lemma all_mutators_bump_holds : forallb mutator_bumps version_table = true.
 Proof. vm_compute. reflexivity. Qed.
@@ -91,3 +108,9 @@ Proof. vm_compute. reflexivity. Qed.
 (* non-vacuity: the table really contains the mutators of all classes *)
 Lemma mutator_rows_nonempty : Nat.leb 40 (length mutator_rows) = true.
 Proof. vm_compute. reflexivity. Qed.
+
+(* path-sensitive pass (vtable.py PathPass): in HashSet and TreeSet no public member function can return normally after
+   writing a structural field of the container without having called IncVersion on some path to that return
+   (catches an early return before IncVersion, or an IncVersion that is only reachable on another path) *)
+Lemma no_structural_write_without_bump_holds : version_leaks = [].
+Proof. reflexivity. Qed.
